@@ -224,6 +224,7 @@ def default_channel_forms(prog, region):
     if ib is None:
         raise CheckError('anchor: init_channels of %s' % short(region))
     an = absint_interp.new_analyzer(prog, max_depth=5)
+    an.unroll_concrete = True           # a loop over a constant table of frequencies is followed element by element
     fr, out = an.analyze_entry(ib)
     slots = None
     if out is not None:
